@@ -66,7 +66,7 @@ class World:
         self.Peer = Peer
         self.fmt = fmt
         self.nchunks = nchunks
-        self.ids = list(range(1, n_nodes + 1))
+        self.ids = list(n_nodes) if isinstance(n_nodes, (list, tuple)) else list(range(1, n_nodes + 1))
         self.adv = set(adv)
         self.loop = shared_loop()
         self._reset_loop()
